@@ -45,11 +45,14 @@ const c02Setup = `(do
   (def p16 '(let [a 1] (or nil a)))
   (def p17 (fn [x] (cond x 1 true 2)))
   (def p18 (fn [x] (do (+ x 1) (-> x (+ 1) (* 2)))))
+  (def p19 {:a {} :b {:c {}} :z 1})
+  (def p20 (let [e {} f (hash-map)] {:a e :b {:c f} :e e :f f}))
+  (def p21 (unbase64 "AQIDBAUGBwgJCgsMDQ4PEA=="))
   (defmacro m-conj (fn [xs y] (list 'conj xs y)))
   (defmacro m-splice (fn [xs ys] (list 'concat xs ys)))
   nil)`
 
-var c02SeedTypes = []string{"vec", "vec", "list", "vec", "map", "set", "list", "vec", "vec", "list", "vec2", "map2", "vec", "vec", "set", "code", "code", "fn", "fn"}
+var c02SeedTypes = []string{"vec", "vec", "list", "vec", "map", "set", "list", "vec", "vec", "list", "vec2", "map2", "vec", "vec", "set", "code", "code", "fn", "fn", "map3", "map3", "bin"}
 
 type strTable struct{ K, V []string }
 
@@ -244,13 +247,15 @@ func (g *c02Gen) next(prefix string) *c02Op {
 		"map-rest-retain", "apply-rest-retain", "reduce-rest-retain",
 		"drain-vec", "drain-rest", "rest-param-vec", "dissoc-multi", "dissoc-multi-set", "dissoc-multi-present", "catch-poolname", "let-shadow-poolname",
 		"eval-code", "call-fn-value", "let-shadow-closure", "let-shadow-closure-fn", "conj-set-multi",
-		"marshal-error", "closure-from-apply", "closure-from-map", "closure-from-swap", "assoc-vec-end"}
+		"marshal-error", "closure-from-apply", "closure-from-map", "closure-from-swap", "assoc-vec-end",
+		"assoc-in-empty", "assoc-in-empty2", "update-in-empty", "unbase64", "base64-roundtrip"}
 	weights := []int{8, 3, 2, 6, 2, 5, 2, 2, 2, 2, 1, 1, 1, 3, 3, 2, 1, 1, 1, 1, 1, 1, 2, 1, 1, 2, 3, 2, 1, 4, 3, 2, 2, 2, 2,
 		3, 2, 2, 3, 2, 2, 2, 2,
 		2, 1, 1,
 		3, 2, 2, 3, 2, 1, 2, 1,
 		2, 2, 3, 1, 1,
-		2, 2, 2, 1, 2}
+		2, 2, 2, 1, 2,
+		2, 1, 1, 2, 1}
 	kind := kinds[g.tp.Weighted(LaneWork, weights)]
 	var src, typ string
 	expectParent := ""
@@ -260,6 +265,27 @@ func (g *c02Gen) next(prefix string) *c02Op {
 	lst := func() *c02Val { v := g.pick("list"); parents = append(parents, v); return v }
 	mp := func() *c02Val { v := g.pick("map"); parents = append(parents, v); return v }
 	switch kind {
+	case "assoc-in-empty":
+		// the path ends in an empty map that is a value of its own, stored inside the parent
+		v := g.pick("map3")
+		parents = append(parents, v)
+		src, typ = "(assoc-in "+v.Name+" [:a :k"+k+"] "+k+")", "map3"
+	case "assoc-in-empty2":
+		v := g.pick("map3")
+		parents = append(parents, v)
+		src, typ = "(assoc-in "+v.Name+" [:b :c :k"+k+"] "+k+")", "map3"
+	case "update-in-empty":
+		v := g.pick("map3")
+		parents = append(parents, v)
+		src, typ = "(update-in "+v.Name+" [:a] (fn [m] (assoc m :u"+k+" "+k+")))", "map3"
+	case "unbase64":
+		// binary values: a later decoding must not write into an earlier one (payloads of 16, 12, 8, 5, 3 and 1 bytes)
+		pl := []string{"EBESExQVFhcYGRobHB0eHw==", "ICEiIyQlJicoKSor", "MDEyMzQ1Njc=", "QEFCQ0Q=", "UFFS", "YA=="}[g.tp.Draw(LaneWork, 6)]
+		src, typ = "(unbase64 \""+pl+"\")", "bin"
+	case "base64-roundtrip":
+		v := g.pick("bin")
+		parents = append(parents, v)
+		src, typ = "(unbase64 (base64 "+v.Name+"))", "bin"
 	case "conj-vec":
 		src, typ = "(conj "+vec().Name+" "+k+")", "vec"
 	case "conj-vec2":
